@@ -358,10 +358,14 @@ class Real:
             raise KeyError(name)
         delattr(o, name)
 
-    def op_set_value(self, sid, name, key, value):
-        c = self.ctx(tup(sid)).cells[name]
+    def op_set_value(self, sid, name, key, value, spelling=None):
+        sp = self.ctx(tup(sid))
+        c = sp.cells[name]
         key = tup(key)
-        c[key] = value
+        if spelling == "attr" and key == ():
+            setattr(sp, name, value)        # ``space.name = value`` assigns a cells without parameters
+        else:
+            c[key] = value
 
     def op_clear_at(self, sid, name, key):
         self.ctx(tup(sid)).cells[name].clear_at(*tup(key))
@@ -564,7 +568,9 @@ def apply_ref(rm, op):
         _drop_inputs(rm, lambda key: key[0][:n] == path)
     elif k == "add_bases":
         s = rm.space(tuple(a[0]))
-        s.bases = s.bases + [tuple(b) for b in a[1]]
+        new = [tuple(b) for b in a[1]]
+        # (adding a space that already is a direct base moves it to the end of the base list)
+        s.bases = [b for b in s.bases if b not in new] + new
     elif k == "remove_bases":
         s = rm.space(tuple(a[0]))
         rem = [tuple(b) for b in a[1]]
